@@ -66,6 +66,7 @@ declare_class(
         "assembly_stats": TRef("AssemblyStats"),
         "bp_per_texel": REAL,
         "scaffold_namer": TRef("ScaffoldNamer"),
+        "found_fragments": TDict(TTuple([STR, INT, INT]), TRef("FoundFragment")),
     },
 )
 # groups and names chromosomes across haplotypes: opaque here (its effect is limited to Scaffold.name, see the
